@@ -365,6 +365,9 @@ func (e *Engine) runHarness(f *ssa.Function, label string, iargs []int64, maxPat
 		}()
 		e.endPath()
 		e.solver.Pop()
+		if os.Getenv("GOSYM_DEBUG") != "" && e.Paths < 40 {
+			fmt.Fprintf(os.Stderr, "path %s -> %q (last fn %s)\n", e.pathString(), outcome, e.curFn)
+		}
 		switch {
 		case outcome == "":
 		case outcome == "infeasible":
